@@ -376,6 +376,9 @@ def run(ctx):
     jobs[("live", "live")] = dict(module="MC_DataLocality", cfg="MC_DataLocality_live.cfg", timeout=3000)
     jobs[("q", "q")] = dict(module="Q_DataLocality", cfg="Q_DataLocality.cfg", workdir=qwd, env={"QUERY_FILE": qf, "OUT_FILE": of},
                             workers=1, count=False, timeout=3000)
+    for k, v in jobs.items():
+        # scratch copies are made here, in one thread (ctx.spec_workdir numbers them by directory listing)
+        v.setdefault("workdir", ctx.spec_workdir("DataLocality"))
     with ThreadPoolExecutor(max_workers=ctx.pick(4, 3)) as ex:
         futs = {k: ex.submit(lambda kw: ctx.tlc("DataLocality", kw.pop("module"), kw.pop("cfg"), **kw), dict(v)) for k, v in jobs.items()}
         res = {k: f.result() for k, f in futs.items()}
